@@ -254,7 +254,13 @@ func registerRegexp(e *Engine) {
 				rv := e.newRegexp(s, &reInfo{Sym: p})
 				e.setLocal(s.Threads[c.Th.ID].top(), c.RetTo, Tuple{rv, Iface{}})
 			}},
-			{Cond: Not(valid), Eff: func(s *State) {
+			// the invalid patterns: "[" as a representative that is invalid natively too (so that a
+			// counterexample through this branch replays), and all the others
+			{Cond: And(Not(valid), Eq(p, StrC("["))), Eff: func(s *State) {
+				s.Variant += "re-invalid=[;"
+				e.setLocal(s.Threads[c.Th.ID].top(), c.RetTo, Tuple{Ptr{}, errv})
+			}},
+			{Cond: And(Not(valid), Not(Eq(p, StrC("[")))), Eff: func(s *State) {
 				e.setLocal(s.Threads[c.Th.ID].top(), c.RetTo, Tuple{Ptr{}, errv})
 			}},
 		})
